@@ -488,7 +488,12 @@ def r5_index(prog, rep: Report, fam: Family):
         good = False
         for r in returns_of(rdr.node):
             v = r.value
-            if isinstance(v, ast.ListComp) and len(v.generators) == 1 and not v.generators[0].ifs \
+            # the comprehension may be handed to a sequence constructor (list(...), tuple(...), array('q', ...)): the read-only
+            # classes only index the table (what the mutable classes need of it is C12.R6)
+            if isinstance(v, ast.Call) and v.args and isinstance(v.args[-1], (ast.GeneratorExp, ast.ListComp)) and not v.keywords \
+                    and (ext_name(prog, rdr, v) or src(v.func)).split(".")[-1] in ("list", "tuple", "array"):
+                v = v.args[-1]
+            if isinstance(v, (ast.ListComp, ast.GeneratorExp)) and not isinstance(r.value, ast.GeneratorExp) and len(v.generators) == 1 and not v.generators[0].ifs \
                     and isinstance(v.elt, ast.Call) and isinstance(v.elt.func, ast.Name) and v.elt.func.id == "int" \
                     and len(v.elt.args) == 1 and isinstance(v.elt.args[0], ast.Name) \
                     and isinstance(v.generators[0].target, ast.Name) and v.elt.args[0].id == v.generators[0].target.id:
